@@ -220,3 +220,49 @@ Fixpoint scan_order (last : option message) (es : list event) : option (option m
   | [] => Some last
   | e :: es' => match order_step last e with Some l => scan_order l es' | None => None end
   end.
+
+(* ------------------------------------------------------------------ C09: retransmission on connect *)
+
+(* "on the next connect with the same session the client retransmits everything still recorded":
+   once the session has listed its outgoing packets (AllPackets(Outgoing) after the accepted CONNACK),
+   the processor sends exactly these, in listing order, PUBLISH with DUP set and PUBREL as it is,
+   before it does anything else; a Send that fails ends the obligation (the client dies). *)
+
+(* Send calls that the processor (not an API call, not the pinger) makes, by packet kind *)
+Definition tx_proc (p : packet) : bool :=
+  match p with
+  | Connect _ | Disconnect | Publish false _ _ | Subscribe _ _ | Unsubscribe _ _ | Pingreq => false
+  | _ => true
+  end.
+
+Inductive rexp := RNone | RDue (l : list packet).
+
+Definition rdue (l : list packet) : rexp := match l with [] => RNone | _ => RDue l end.
+
+Definition resend_step (x : rexp) (e : event) : option rexp :=
+  match e with
+  | ENew _ => Some RNone
+  | ETx p a r =>
+    if tx_proc p then
+      match x with
+      | RDue (q :: rest) =>
+        if a && packet_eqb p (set_dup q)
+        then Some (match r with Ok => rdue rest | Fail => RNone end)
+        else None
+      | _ => Some RNone
+      end
+    else Some x
+  | _ =>
+    if proc_obs e then
+      match x with
+      | RDue (_ :: _) => None
+      | _ => match e with EAll Outgoing (Some l) => Some (rdue l) | _ => Some RNone end
+      end
+    else Some x
+  end.
+
+Fixpoint scan_resend (x : rexp) (es : list event) : option rexp :=
+  match es with
+  | [] => Some x
+  | e :: es' => match resend_step x e with Some x' => scan_resend x' es' | None => None end
+  end.
